@@ -11,6 +11,7 @@ from hypothesis import strategies as st
 from vlib import gen_circ, sims
 
 ID = "C14"
+CASE_TIMEOUT = 20  # seconds per case; a timed-out case is counted as skipped (symbolic blow-up on long feedback runs), never as a verdict
 RULE = (
     "Hypothesis generates (a) histories of 2..8 operations (append_circuit with an injective qubit list, a+b, a+=b, "
     "a+=gate, repeat(n) n in 0..5, copy / copy(vanilla), user mutation of a result by append or in-place qubit-list edit, use of a copy's scratch-qubit bookkeeping for QCircuitEnhanced operands) "
